@@ -7,6 +7,7 @@ import (
 	"path/filepath"
 	"strings"
 	"sync"
+	"syscall"
 	"time"
 
 	"github.com/whatap/golib/config"
@@ -22,11 +23,78 @@ func tmpBase() string {
 	return filepath.Join(vlib.VerifRoot(), "work", "C18-tmp")
 }
 
-func tmpHome(tag string) string {
+// Where a home directory lives is an input dimension of every section (added after seeded
+// change C18r6-2: the write-back's scratch file moved to the system temp directory, so the
+// final rename fails whenever the configuration file and the temp directory are on different
+// file systems). The k-th home of a process takes placement k mod n:
+//
+//	work/tmp-same-fs        under <verif>/work, TMPDIR untouched (usually the same file system)
+//	shm/tmp-other-fs        under /dev/shm (tmpfs), TMPDIR untouched
+//	work/TMPDIR-other-fs    under <verif>/work, TMPDIR pointing into /dev/shm
+//	work/TMPDIR-missing     under <verif>/work, TMPDIR naming a directory that does not exist
+//
+// Placements whose precondition does not hold on this machine (no writable /dev/shm, or
+// /dev/shm on the same device as the work directory) are left out; what was used is counted
+// in the evidence (homes_by_placement/...). TMPDIR is process-wide: it is switched when a home
+// is created and stays until the next one; on a library that keeps its files next to the
+// configuration file (as the pinned tree does) no value of it can matter.
+type placement struct{ name, base, tmpdir string }
+
+var (
+	placeOnce sync.Once
+	places    []placement
+	homeSeq   int64
+	homeMu    sync.Mutex
+	origTmp   string
+	hadTmp    bool
+	placeCnt  = map[string]int64{}
+)
+
+func shmBase() string { return fmt.Sprintf("/dev/shm/verif-C18-%d", os.Getpid()) }
+
+func devOf(p string) (uint64, bool) {
+	var st syscall.Stat_t
+	if syscall.Stat(p, &st) != nil {
+		return 0, false
+	}
+	return uint64(st.Dev), true
+}
+
+func initPlaces() {
+	origTmp, hadTmp = os.LookupEnv("TMPDIR")
 	os.MkdirAll(tmpBase(), 0o755)
-	d, err := os.MkdirTemp(tmpBase(), tag+"-")
+	places = []placement{{"work/tmp-same-fs", tmpBase(), ""}}
+	wd, ok1 := devOf(tmpBase())
+	if os.MkdirAll(shmBase()+"/tmpdir", 0o755) == nil {
+		sd, ok2 := devOf(shmBase())
+		if ok1 && ok2 && sd != wd {
+			places = append(places,
+				placement{"shm/tmp-other-fs", shmBase(), ""},
+				placement{"work/TMPDIR-other-fs", tmpBase(), shmBase() + "/tmpdir"})
+		}
+	}
+	places = append(places, placement{"work/TMPDIR-missing", tmpBase(), "/nonexistent-verif-tmpdir/x"})
+}
+
+func tmpHome(tag string) string {
+	placeOnce.Do(initPlaces)
+	homeMu.Lock()
+	pl := places[int(homeSeq)%len(places)]
+	homeSeq++
+	placeCnt[pl.name]++
+	if pl.tmpdir != "" {
+		os.Setenv("TMPDIR", pl.tmpdir)
+	} else if hadTmp {
+		os.Setenv("TMPDIR", origTmp)
+	} else {
+		os.Unsetenv("TMPDIR")
+	}
+	homeMu.Unlock()
+	os.MkdirAll(pl.base, 0o755) // another shard may have removed the empty shared base
+	d, err := os.MkdirTemp(pl.base, tag+"-")
 	if err != nil {
-		d, err = os.MkdirTemp("", "wC18-"+tag+"-")
+		os.MkdirAll(tmpBase(), 0o755)
+		d, err = os.MkdirTemp(tmpBase(), tag+"-")
 		if err != nil {
 			panic(err)
 		}
@@ -34,8 +102,17 @@ func tmpHome(tag string) string {
 	return d
 }
 
-// cleanTmp removes the base directory when no other shard is still using it.
-func cleanTmp() { os.Remove(tmpBase()) }
+// cleanTmp removes the base directories (the shared one only when no other shard still uses
+// it) and reports how many homes each placement received.
+func cleanTmp(c *vlib.Ctx) {
+	homeMu.Lock()
+	for k, v := range placeCnt {
+		c.Count("homes_by_placement/"+k, v)
+	}
+	homeMu.Unlock()
+	os.RemoveAll(shmBase())
+	os.Remove(tmpBase())
+}
 
 // newConf creates a private FileConfig on <dir>/whatap.conf.
 //
